@@ -496,9 +496,20 @@ func (v *VM) execute(context *Context) error {
 	return nil
 }
 
+var anyType = reflect.TypeOf((*interface{})(nil)).Elem()
+
 func (v *VM) CallWithArgsAndExpressions(context *Context, c Callable, args []StackFrame) (interface{}, error) {
 	l := len(v.Stack)
 	v.Stack = append(v.Stack, args...)
+	for i := l; i < len(v.Stack); i++ {
+		if !v.Stack[i].Value.IsValid() {
+			// reflect.ValueOf(nil): a nil argument, eg the result of
+			// find-feature for a feature that doesn't exist. It's kept
+			// as a nil interface{}, since an invalid value is what marks
+			// an arg that hasn't been set.
+			v.Stack[i].Value = reflect.Zero(anyType)
+		}
+	}
 
 	var aes [MaxArgs]b6.Expression
 	for i, arg := range args {
